@@ -535,6 +535,12 @@ class ProgGen:
             return [['define', x, 1], ['define', f, ['fn', [], x]], ['let', [[x, 2]], ['list', [f], x, ['let', [[x, 3]], [f]]]], x]
         if k == 'quote':
             return [['quote', [1, x, [2, 'b']]], ['first', ['quote', [x, y]]], ['length', ['quote', [1, 2, 3]]]]
+        if k == 'qq' and r.random() < 0.5:
+            # a template that begins with a spliced variable builds a new list every time: the variable keeps its elements
+            v = self.fresh()
+            t = ['quasiquote', [['unquote-splice', v], ['unquote', x], 'z']]
+            return [['define', x, n], ['define', v, ['list', 1, 2]], t, v, t, ['length', v],
+                    ['define', f, ['fn', [], ['quasiquote', [['unquote-splice', v], ['unquote', x]]]]], [f], [f], v]
         if k == 'qq':
             return [['define', x, n], ['quasiquote', [1, ['unquote', x], ['unquote-splice', ['list', x, 2]], 'z']]]
         if k == 'eval':
